@@ -458,7 +458,9 @@ DURS = [("5m", 300 * 10**9), ("300s", 300 * 10**9), ("1h", 3600 * 10**9), ("1h30
         ("7ns", 7), ("1m30s", 90 * 10**9), ("0s", 0), ("1d12h", 36 * 3600 * 10**9)]
 BYTES = [("10b", 10), ("10B", 10), ("1KB", 1000), ("1kb", 1000), ("1KiB", 1024), ("1k", 1000), ("1ki", 1024), ("5MB", 5 * 10**6), ("5MiB", 5 * 2**20),
          ("1.5KB", 1500), ("2gb", 2 * 10**9), ("2GiB", 2 * 2**30), ("1tb", 10**12), ("3mi", 3 * 2**20)]
-NUMS = [("5", 5.0), ("5.0", 5.0), ("0.5", 0.5), ("400", 400.0), ("1e3", 1000.0), ("0", 0.0), ("3.25", 3.25), ("100", 100.0), ("1.5e-3", 0.0015), ("42", 42.0)]
+NUMS = [("5", 5.0), ("5.0", 5.0), ("0.5", 0.5), ("400", 400.0), ("1e3", 1000.0), ("0", 0.0), ("3.25", 3.25), ("100", 100.0), ("1.5e-3", 0.0015), ("42", 42.0),
+        # integers written with a leading zero are decimal (strconv.ParseFloat), not octal
+        ("0200", 200.0), ("0100", 100.0), ("060", 60.0), ("010", 10.0)]
 STRS = [b"a", b"", b"error", b"x y", b'q"uote', b"back\\slash", b"tab\there", b"nl\nx", "é世".encode(), b"a.b", b"{{.x}}", b"100%", b"`tick`", b"\xff\xfe",
         b"foo|bar", b"# not a comment", b"/path/to", b"k=v", b"cr\rlf\r\nend", b"\r"]
 REGEXES = [b"a.*", b"^err", b"(foo|bar)", b"[0-9]+", b"\\d+", b"x?y+", b"", b".", b"(?i)warn", b"a{2,3}", b"[^ ]+"]
